@@ -263,10 +263,22 @@ def shape_obligations(chk):
     """the two expressions the symbolic run takes by contract rather than executes: checked to be the ones the contracts describe"""
     I = install(Interp())
     mod, chain, node = I.src.find_def(f"{MOD}.slotted")
-    assigns = {ast.unparse(a.targets[0]): ast.unparse(a.value) for a in ast.walk(node) if isinstance(a, ast.Assign) and len(a.targets) == 1}
-    want = {"inherited_slots": "set().union(*(getattr(c, '__slots__', ()) for c in cls.mro()))",
-            "field_names": "{f.name: ... for f in dataclasses.fields(cls) if f.name}", "key": "repr(cls)", "cls_dict": "{**cls.__dict__}"}
-    bad = {k: assigns.get(k) for k, v in want.items() if assigns.get(k) != v}
+    def canon(e):
+        """the expression with its free names replaced by their order of first appearance (so renaming locals does not matter)"""
+        import copy
+        e = copy.deepcopy(e)
+        seen = {}
+        keep = {"set", "getattr", "dataclasses", "repr", "dict"}
+        for n in ast.walk(e):
+            if isinstance(n, ast.Name) and n.id not in keep:
+                n.id = seen.setdefault(n.id, f"v{len(seen)}")
+            if isinstance(n, ast.arg):
+                n.arg = seen.setdefault(n.arg, f"v{len(seen)}")
+        return ast.unparse(e)
+    values = {canon(a.value) for a in ast.walk(node) if isinstance(a, ast.Assign) and len(a.targets) == 1}
+    want = {"inherited slots": "set().union(*(getattr(v0, '__slots__', ()) for v0 in v1.mro()))",
+            "field names": "{v0.name: ... for v0 in dataclasses.fields(v1) if v0.name}", "guard key": "repr(v0)", "namespace copy": "{**v0.__dict__}"}
+    bad = {k: v for k, v in want.items() if v not in values}
     chk.add(Ob(f"{MOD}.slotted", "inherited-slots-are-collected-over-the-whole-mro-and-field-names-come-from-dataclasses.fields", "ast", [], z3.BoolVal(not bad), {"differs": bad}))
 
 
@@ -293,16 +305,16 @@ def _run(chk, func, dflag, wflag):
                 Q([Val], lambda x: z3.Implies(isname(x), z3.And(name_wit(x) >= 0, name_wit(x) < n, to_val(names.at(SInt(name_wit(x)))) == x)), trigger=isname, name="isname-elim")]
 
     def havoc(I, path, env, k):
-        d = env.lookup("cls_dict")
+        d = env.lookup(env.find(lambda v: isinstance(v, SDict), "namespace copy (symbolic dict)"))
         st["cur"]["pre_loop"] = d.arrays
         new = SDict.from_arrays(path.fresh("ns_has", ArrB), path.fresh("ns_val", z3.ArraySort(Val, Val)))
         d.has, d.get, d.arrays = new.has, new.get, new.arrays
-        for a in name_axioms(env.lookup("field_names").seq()):
+        for a in name_axioms(env.lookup(env.find(lambda v: isinstance(v, Names), "ordered field-name dict")).seq()):
             path.assume(a)
 
     def inv(I, path, env, k):
-        d = env.lookup("cls_dict")
-        names = env.lookup("field_names").seq()
+        d = env.lookup(env.find(lambda v: isinstance(v, SDict), "namespace copy (symbolic dict)"))
+        names = env.lookup(env.find(lambda v: isinstance(v, Names), "ordered field-name dict")).seq()
         has, val = d.arrays
         has0, val0 = st["cur"].setdefault("pre_loop", d.arrays)
         return [Q([IntS], lambda j: z3.Implies(z3.And(j >= 0, j < k), z3.Not(z3.Select(has, to_val(names.at(SInt(j)))))), name="names-so-far-are-erased"),
@@ -390,5 +402,10 @@ def _slots_shape(sl, names, extras):
     if not isinstance(fg, FilteredGen):
         return False, f"__slots__ value is {sl!r}"
     cond = [ast.unparse(c) for c in fg.gen.ifs]
-    ok = ast.unparse(fg.node.elt) == ast.unparse(fg.gen.target) and cond == ["f not in inherited_slots"] and getattr(fg, "src_host", None) is names
+    c0 = fg.gen.ifs[0] if len(fg.gen.ifs) == 1 else None
+    # the filter is  <element> not in <the set of inherited slot names>  (identified by what the name holds, not by how it is spelled)
+    filt_ok = (isinstance(c0, ast.Compare) and len(c0.ops) == 1 and isinstance(c0.ops[0], ast.NotIn) and isinstance(c0.left, ast.Name)
+               and isinstance(fg.gen.target, ast.Name) and c0.left.id == fg.gen.target.id and isinstance(c0.comparators[0], ast.Name)
+               and isinstance(fg.env.lookup(c0.comparators[0].id), FnSet))
+    ok = ast.unparse(fg.node.elt) == ast.unparse(fg.gen.target) and filt_ok and getattr(fg, "src_host", None) is names
     return ok, f"elt={ast.unparse(fg.node.elt)} ifs={cond} src={type(getattr(fg, 'src_host', None)).__name__} extras={names.extras}"
